@@ -2,6 +2,7 @@ SPECIFICATION Spec
 CONSTANTS Kind = "QR"
  Sizes = {1, 2, 3, 4, 5, 6, 7, 8, 9, 16, 17, 32, 33}
  WideForms = 0
+ BigLean = 0
 INVARIANT AdmissibleCases
 INVARIANT ConstructionRestores
 INVARIANT PermAlgebra
